@@ -45,7 +45,8 @@ func H12Exec() {
 		}
 		s.matches = ndBool("matches")
 		s.before, s.onOK, s.onFailed = ndBool("before-hook-creation"), ndBool("hook-succeeded"), ndBool("hook-failed")
-		h := &release.Hook{Name: names[k], Kind: kind, Path: "c/templates/" + names[k] + ".yaml", Weight: wgt,
+		// template paths sort the other way round than names: ties are by NAME
+		h := &release.Hook{Name: names[k], Kind: kind, Path: "c/templates/" + string(rune('z'-names[k][1]+'a')) + ".yaml", Weight: wgt,
 			Manifest: "apiVersion: batch/v1\nkind: " + kind + "\nmetadata:\n  name: " + names[k] + "\n"}
 		if s.matches {
 			h.Events = []release.HookEvent{release.HookPreInstall}
